@@ -50,6 +50,9 @@ TYPES = {
     # values on which Table Schema's caster fails with something else than CastError
     'integer_from_huge_decimal': ({'type': 'integer'}, [1, 2, decimal.Decimal('Infinity'), decimal.Decimal('1E+400'), 3, None]),
     'duration_minimum': ({'type': 'duration', 'constraints': {'minimum': 'P1D'}}, ['P2D', 'P1Y', 'P10D', 'PT1H', '']),
+    # set_type given NOTHING but constraints (the field keeps its type): the values are policed all the same
+    'constraints_only_enum': ({'constraints': {'enum': ['a', 'b', 'c']}}, ['a', 'b', 'c', 'd', 'A', 'cc']),
+    'constraints_only_maxlen': ({'constraints': {'maxLength': 2}}, ['ab', 'a', 'abc', 'xyzw', '']),
 }
 POLICIES = ['default', 'raise', 'drop', 'ignore', 'clear', 'custom4', 'custom5']
 FORMS = ['set_type', 'set_type', 'set_type', 'validate_schema', 'validate_fn', 'validate_field_fn']
@@ -287,7 +290,7 @@ def run_case(case):
         cfg = {'pattern': pat, 'regex': regex, 'options': opts, 'transform': use_transform}
         tlabel = tk
     elif form == 'validate_schema':
-        out_fields = [dict(TYPES[tk][0], name=cn) for cn, tk in zip(cnames, tkeys)]
+        out_fields = [dict({'type': 'string'}, **dict(TYPES[tk][0], name=cn)) for cn, tk in zip(cnames, tkeys)]
         out_fields = in_fields[:3] + out_fields
         for f in out_fields:
             checked[f['name']] = f
